@@ -206,6 +206,14 @@ func c01GenProgs(args []string) {
 				g.Stats[k] += v
 			}
 			mode = "mode_twin_branches"
+		} else if gm == "nested_dynamic_merge" || (gm == "" && rng.Intn(12) == 0) {
+			// the parametric family "merged output of a map call nested in a map call, both sized at run time"
+			var st map[string]int
+			p, st = pgen.GenNestedDynamicMerge(rng, stagecmd)
+			for k, v := range st {
+				g.Stats[k] += v
+			}
+			mode = "mode_nested_dynamic_merge"
 		} else if gm == "per_fork_flags" || (gm == "" && rng.Intn(10) == 0) {
 			// the parametric family "a run-time condition per fork"
 			var st map[string]int
